@@ -89,6 +89,19 @@ pub fn gen_cases(cfg: &RunCfg) -> Vec<Case> {
             cases.push(Case { root: r.clone(), adds: Some(a.clone()) });
         }
     }
+    // explicit numbers at the edges of the machine integers (the lexer reads them as i128)
+    let edges: [i128; 12] = [i128::MIN, i128::MIN + 1, -(1i128 << 64), -(1i128 << 63) - 1, -(1i128 << 63), -(1i128 << 31) - 1, (1i128 << 31), (1i128 << 63) - 1, (1i128 << 63), (1i128 << 64), i128::MAX - 1, i128::MAX];
+    for b in edges {
+        cases.push(Case { root: vec![Some(b)], adds: None });
+        cases.push(Case { root: vec![None, Some(b)], adds: None });
+        cases.push(Case { root: vec![Some(b), None, None], adds: Some(vec![]) });
+        if b > 0 {
+            cases.push(Case { root: vec![None, Some(1)], adds: Some(vec![Some(b)]) });
+            // (no identifier-only addition behind a huge one: the executable X.680 checker walks every smaller candidate)
+        } else {
+            cases.push(Case { root: vec![Some(b), Some(b + 1)], adds: Some(vec![None]) });
+        }
+    }
     // seeded random larger shapes
     let mut rng = Rng::new(cfg.seed ^ 0xC14);
     let n = cfg.budget(3000, 60000);
@@ -181,6 +194,8 @@ pub fn run(cfg: &RunCfg) -> Report {
     let groups = batch_compile(cases.len(), 400, &render, &rcfg);
     let mut requests = Vec::new();
     let mut meta = Vec::new();
+    let mut err_requests: Vec<String> = Vec::new();
+    let mut err_meta: Vec<(usize, String)> = Vec::new();
     for (idx, outcome) in groups {
         match outcome {
             Outcome::Ok { generated, .. } => {
@@ -226,6 +241,12 @@ pub fn run(cfg: &RunCfg) -> Report {
                 rep.evaluations += 1;
                 rep.count("compile-err");
                 rep.sample(json!({"compile_err": e, "asn1": cases[idx[0]].asn(idx[0])}));
+                // legal notation whose numbers fit the lexer's integers has to compile (decided in Lean)
+                for i in idx {
+                    let c = &cases[i];
+                    err_requests.push(format!("c14legal {} {}", Case::sx(&c.root), Case::sx(c.adds.as_deref().unwrap_or(&[]))));
+                    err_meta.push((i, e.clone()));
+                }
             }
             Outcome::Panic(p) => {
                 rep.evaluations += 1;
@@ -233,6 +254,21 @@ pub fn run(cfg: &RunCfg) -> Report {
                 rep.harness_errors.push(format!("panic on {}: {p}", cases[idx[0]].asn(idx[0])));
             }
         }
+    }
+    match run_driver(&err_requests) {
+        Ok(ans) => {
+            for (k, a) in ans.iter().enumerate() {
+                let (i, e) = &err_meta[k];
+                let c = &cases[*i];
+                if a == "t" {
+                    rep.unsat("", false, json!({"why": format!("a legal enumeration does not compile: {e}"), "asn1": c.asn(*i), "root": c.root.iter().map(|x| x.map(|v| v.to_string())).collect::<Vec<_>>(),
+                        "adds": c.adds.as_ref().map(|a| a.iter().map(|x| x.map(|v| v.to_string())).collect::<Vec<_>>())}));
+                } else if a != "f" {
+                    rep.harness_errors.push(format!("driver answer `{a}`"));
+                }
+            }
+        }
+        Err(e) => rep.harness_errors.push(e),
     }
     let answers = match run_driver(&requests) {
         Ok(a) => a,
